@@ -16,6 +16,10 @@ CONSTANTS
  Want = {"ALL"}
  ArgLists <- MCArgLists
  InitEvents <- MCInitEvents
+ WithId = TRUE
+ CfgKeys <- MCCfgKeys
+ CfgValues <- MCCfgValues
+ IgnoreVariants <- MCIgnoreVariants
  Cmds <- MCCmds
 CONSTRAINT MCLevel
 CHECK_DEADLOCK FALSE
